@@ -118,11 +118,15 @@ def runUnwrappedLoop {σ : Type} : List (Raw σ) → σ → σ × Option Fail ×
 
 /-! ## The sweep prelude over Go ints -/
 
-/-- `GetSliceStartEndForLiquidations(sliceLen, offset, batchSize)` (both generations, same text) -/
+/-- Go `int` (64 bit) addition wraps around silently -/
+def wrap64 (x : Int) : Int := (x + 2 ^ 63) % 2 ^ 64 - 2 ^ 63
+
+/-- `GetSliceStartEndForLiquidations(sliceLen, offset, batchSize)` (both generations, same text; `offset + batchSize` is a
+Go `int` addition) -/
 def sliceStartEnd (sliceLen offset batch : Int) : Int × Int :=
   if offset ≥ sliceLen || offset < 0 || batch < 0 then (sliceLen, sliceLen)
-  else if offset + batch ≥ sliceLen then (offset, sliceLen)
-  else (offset, offset + batch)
+  else if wrap64 (offset + batch) ≥ sliceLen then (offset, sliceLen)
+  else (offset, wrap64 (offset + batch))
 
 /-- the two calls around `if start == end { offset = 0; … }` -/
 def sweepBounds (sliceLen offset batch : Int) : Int × Int :=
